@@ -61,6 +61,7 @@ type Frame struct {
 	snaps    map[string]bool
 	nameDef  map[string]string // snap variables defined on some merged arms only: the condition under which they are
 	cut      map[*ssa.BasicBlock]bool
+	loopAC   map[*loopHdr]*assignsCtx // modifies clauses of the cut loops (checked inside their bodies)
 	unrolled map[*ssa.BasicBlock]int
 	retTo    ssa.Value // value in the caller frame that receives the result (nil: discard)
 	contract *FuncContract
@@ -140,6 +141,12 @@ func (st *State) clone() *State {
 		g.unrolled = make(map[*ssa.BasicBlock]int, len(f.unrolled))
 		for k, v := range f.unrolled {
 			g.unrolled[k] = v
+		}
+		if f.loopAC != nil {
+			g.loopAC = make(map[*loopHdr]*assignsCtx, len(f.loopAC))
+			for k, v := range f.loopAC {
+				g.loopAC[k] = v
+			}
 		}
 		n.frames = append(n.frames, &g)
 	}
